@@ -115,11 +115,12 @@ class PDDLFunction:
     def change_signature(self, old_to_new_param_names: Dict[str, str]) -> None:
         """Performs inline changing of the function's signature.
 
-        :param old_to_new_param_names: the mapping of old parameter names to new parameter names.
+        :param old_to_new_param_names: the mapping of old parameter names to new parameter names,
+            names that are not in the mapping (constants, quantified variables) are kept.
         """
         # building a new mapping keeps the order and is safe when the new names overlap the old ones.
         self.signature = {
-            old_to_new_param_names[old_param_name]: param_type
+            old_to_new_param_names.get(old_param_name, old_param_name): param_type
             for old_param_name, param_type in self.signature.items()
         }
 
